@@ -247,6 +247,19 @@ theorem setStartPoint_keeps_points_and_closedness (c c' : Contour) (i : Int) (h 
   · exact ⟨List.Perm.refl _, rfl⟩
   · exact ⟨drop_append_take_perm _ _, by rw [hopen]; exact isOpen_rotate hp hm⟩
 
+/-- Changing the start point does not change the shape: the signed area AreaPen computes (hence
+`area` and `clockwise`) is the same, and the rotated contour still draws without error — for every
+closed contour (lines, cubics, quadratics with implied points) and every admissible index. -/
+theorem setStartPoint_keeps_area (c c' : Contour) (i : Int) (h : c.setStartPoint i = .ok c')
+    (hm : noMove c.points = true) (herr : drawErr c.points = none) :
+    freshArea c'.points = freshArea c.points ∧ drawErr c'.points = none := by
+  rcases setStartPoint_ok h with ⟨rfl, _⟩ | ⟨k, p, _, hp, hon, _, h2, rfl⟩
+  · exact ⟨rfl, herr⟩
+  · have hlen : 2 ≤ c.points.length := by
+      have : onCurveCount c.points ≤ c.points.length := List.length_filter_le _ _
+      omega
+    exact freshArea_rotate c.points hm herr k p hp hon hlen
+
 /-- An index that names an off-curve point is rejected (AssertionError), an index out of range too
 (IndexError) — in both cases nothing changes (`setStartPoint` returns no new contour). -/
 theorem setStartPoint_rejects (c : Contour) (i : Int) (h2 : 2 ≤ onCurveCount c.points)
@@ -267,6 +280,7 @@ example : ({ points := Ex.closed } : Contour).setStartPoint (-4) =
     .ok { points := Ex.closed.drop 4 ++ Ex.closed.take 4 } := by decide +kernel
 example : noMove Ex.closed = true := by decide
 example : ({ points := Ex.opened } : Contour).setStartPoint 1 = .ok { points := Ex.opened } := by decide +kernel
+example : freshArea (Ex.closed.drop 4 ++ Ex.closed.take 4) = 184555 / 12 := by decide +kernel
 example : ({ points := Ex.closed } : Contour).setStartPoint 2 = .error .assertion := by decide +kernel
 example : ({ points := Ex.closed } : Contour).setStartPoint 8 = .error .index := by decide +kernel
 
